@@ -737,3 +737,186 @@ class C18Queue(Monitor):
                 if kw < kv:
                     which = "earlier arrival" if kw[0] < kv[0] else "same arrival time, smaller id"
                     yield Violation("C18", f"vehicle left waiting while a later one got the plug ({which})", {"granted": v.id, "granted_enqueued": kv[0], "waiting": w.id, "waiting_enqueued": kw[0], "station": bs.station_id, "plug": bs.charger_id})
+
+
+# ============================================================================ C09
+
+
+EXPECTED_CLASS = {
+    "IdleInstruction": ("Idle",),
+    "DispatchTripInstruction": ("DispatchTrip",),
+    "DispatchStationInstruction": ("DispatchStation", "ChargingStation"),
+    "ChargeStationInstruction": ("ChargingStation",),
+    "ChargeBaseInstruction": ("ChargingBase",),
+    "DispatchBaseInstruction": ("DispatchBase",),
+    "ReserveBaseInstruction": ("ReserveBase",),
+    "OutOfServiceInstruction": ("OutOfService",),
+    "RepositionInstruction": ("Repositioning",),
+}
+STATE_FIELDS = ("vehicles", "stations", "bases", "requests", "v_locations", "r_locations", "s_locations", "b_locations",
+                "v_search", "r_search", "s_search", "b_search")
+HOLDERS = ("ChargingStation", "ChargingBase", "ChargeQueueing", "ReserveBase", "DispatchTrip", "ServicingTrip")
+
+
+def _changed_fields(a, b) -> List[str]:
+    return [f for f in STATE_FIELDS if getattr(a, f) != getattr(b, f)]
+
+
+class C09Atomic(Monitor):
+    prop = "C09"
+
+    def start(self, h):
+        self.sub = [C02Counts(), C07Location(), C17Assignment()]
+        for m in self.sub:
+            m.start(h)
+
+    # ---- part 1: a single instruction is all-or-nothing
+    def after_probe(self, h: History, before, after, instruction, vid):
+        itype = type(instruction).__name__
+        vb, va = before.vehicles.get(vid), after.vehicles.get(vid)
+        prev = sname(vb)
+        changed = vb.vehicle_state.instance_id != va.vehicle_state.instance_id
+        h.labels[f"m:{prev}:{itype}:{'accepted' if changed else 'rejected'}"] += 1
+        if not changed:
+            if prev in HOLDERS:
+                h.flag("rejected_from_holder")
+            diff = _changed_fields(before, after)
+            if diff:
+                yield Violation("C09", f"rejected {itype} from {prev} changed the state", {"fields": diff, "instruction": repr(instruction)})
+        else:
+            h.flag("accepted_probe")
+            got = sname(va)
+            if got not in EXPECTED_CLASS[itype]:
+                yield Violation("C09", f"accepted {itype} left the vehicle in {got}", {"instruction": repr(instruction), "previous": prev})
+            others = [x for x in after.vehicles.values() if x.id != vid and x != before.vehicles[x.id]]
+            if others:
+                yield Violation("C09", f"{itype} for one vehicle changed another vehicle", {"instruction": repr(instruction), "others": [x.id for x in others]})
+            # "with all of its side effects": the resource, location and assignment recounts hold on the result
+            for m in self.sub:
+                for v in m.after_probe(h, before, after, instruction, vid):
+                    yield Violation("C09", f"side effects of accepted {itype} incomplete: {v.key}", v.detail)
+
+    # ---- part 1b: a rejected instruction does not disturb the others of a batch
+    def batch(self, h: History, before, after, instructions, only_accepted_result) -> Iterable[Violation]:
+        from hv.canon import canon
+
+        rejected = [i for i in instructions if before.vehicles[i.vehicle_id].vehicle_state.instance_id == after.vehicles[i.vehicle_id].vehicle_state.instance_id]
+        for i in rejected:
+            if before.vehicles[i.vehicle_id] != after.vehicles[i.vehicle_id]:
+                yield Violation("C09", f"rejected {type(i).__name__} in a batch changed its vehicle", {"instruction": repr(i)})
+        if rejected and len(rejected) < len(instructions):
+            h.flag("batch_with_rejection")
+        a = canon({f: getattr(after, f) for f in STATE_FIELDS})
+        b = canon({f: getattr(only_accepted_result, f) for f in STATE_FIELDS})
+        if a != b:
+            from hv.canon import first_diff
+
+            yield Violation("C09", "batch result differs from applying only its accepted instructions", {"first_difference": first_diff(a, b), "instructions": [repr(i) for i in instructions]})
+
+    # ---- part 2: one instruction per vehicle per step, last generated wins, driver has the final word
+    def after_step(self, h: History, before, after, events):
+        from nrel.hive.reporting.reporter import Reporter
+        import dataclasses
+
+        gens = h.generators
+        mid = next((g.seen for g in reversed(gens) if getattr(g, "seen", None) is not None), None)
+        if mid is None:
+            return
+        env2 = h.env.set_reporter(Reporter())
+        emitted: Dict[str, list] = collections.defaultdict(list)
+        for g in gens:
+            for i in getattr(g, "emitted", ()):
+                emitted[i.vehicle_id].append(i)
+        reports: Dict[str, list] = collections.defaultdict(list)
+        for e in _events(events, "INSTRUCTION"):
+            reports[e["vehicle_id"]].append(e)
+        for vid in sorted(mid.vehicles.keys()):
+            mine = emitted.get(vid, [])
+            stack = tuple(reversed(mine)) or None
+            di = mid.vehicles[vid].driver_state.generate_instruction(mid, env2, stack)
+            want = di if di is not None else (mine[-1] if mine else None)
+            got = reports.get(vid, [])
+            h.stats["precedence_checks"] += 1
+            if len(mine) > 1:
+                h.flag("competing_instructions")
+            if di is not None and mine:
+                h.flag("driver_overrode_generator")
+            if len(got) > 1:
+                yield Violation("C09", "more than one instruction took effect for a vehicle in one step", {"vehicle": vid, "reports": [g_["instruction_type"] for g_ in got]})
+                continue
+            if want is None:
+                if got:
+                    yield Violation("C09", "an instruction took effect that nobody generated", {"vehicle": vid, "got": got[0]["instruction_type"]})
+                continue
+            if not got:
+                yield Violation("C09", "no instruction took effect although one was generated", {"vehicle": vid, "wanted": repr(want)})
+                continue
+            wd = dict(dataclasses.asdict(want), instruction_type=type(want).__name__)
+            gd = {k: got[0].get(k) for k in wd}
+            if wd != gd:
+                who = "the driver's" if di is not None else "the last generated"
+                yield Violation("C09", f"the instruction that took effect is not {who}", {"vehicle": vid, "wanted": wd, "got": gd, "generated_in_order": [repr(i) for i in mine]})
+            ai = after.applied_instructions.get(vid)
+            if ai is not None and dict(dataclasses.asdict(ai), instruction_type=type(ai).__name__) != wd:
+                yield Violation("C09", "applied_instructions records another instruction than the one selected", {"vehicle": vid})
+
+
+# ============================================================================ C16
+
+
+class C16Immutable(Monitor):
+    prop = "C16"
+
+    def _check_retained(self, h: History, when: str) -> Iterable[Violation]:
+        from hv.canon import fingerprint
+
+        for k, (s, fp) in enumerate(h.retained):
+            if fingerprint(s, ids=True) != fp:
+                yield Violation("C16", f"a retained state reads differently {when}", {"retained_index": k, "retained_at": int(s.sim_time)})
+        h.stats["retained_state_checks"] += len(h.retained)
+
+    def after_step(self, h: History, before, after, events):
+        if h.retained:
+            changed = sum(1 for f in ("vehicles", "stations", "requests") if getattr(before, f) != getattr(after, f))
+            if changed == 3:
+                h.labels["steps_changing_vehicles_station_request_after_retain"] += 1
+                self._rich = getattr(self, "_rich", 0) + 1
+                if self._rich >= 5:
+                    h.flag("five_rich_steps_after_retain")
+        return self._check_retained(h, "after a later step")
+
+    def after_probe(self, h, before, after, instruction, vid):
+        return self._check_retained(h, "after a later instruction application")
+
+    def branch(self, h: History, k: int) -> Iterable[Violation]:
+        from nrel.hive.reporting.reporter import Reporter
+        from nrel.hive.state.simulation_state.update.step_simulation_ops import apply_instructions
+        from hv.canon import canon, first_diff
+
+        saved, _ = h.retained[k % len(h.retained)]
+        env2 = h.env.set_reporter(Reporter())
+        snap = [(g, list(getattr(g, "queue", [])), getattr(g, "emitted", ()), getattr(g, "seen", None)) for g in h.generators]
+        results = []
+        with quiet():
+            for _ in range(2):
+                for g, q, _, _ in snap:
+                    if hasattr(g, "queue"):
+                        g.queue = list(q)
+                r, _ = h.rp.u.step_update.update(saved, env2)
+                results.append(canon(r, ids=False))
+        for g, q, em, seen in snap:
+            if hasattr(g, "queue"):
+                g.queue = list(q)
+            if hasattr(g, "emitted"):
+                g.emitted, g.seen = em, seen
+        h.flag("branched")
+        h.stats["branches"] += 1
+        if results[0] != results[1]:
+            yield Violation("C16", "stepping the same saved state twice gave different results", {"first_difference": first_diff(results[0], results[1])})
+        yield from self._check_retained(h, "after stepping a saved state")
+
+    def finish(self, h):
+        return self._check_retained(h, "at the end of the history")
+
+
+from hv.base import quiet  # noqa: E402  (used by C16Immutable.branch)
